@@ -35,7 +35,7 @@ META = {
                     "earlier calls run on their own symbol families (suffix @c<i>); a leak shows up as a foreign symbol "
                     "or as an unequal term", "user_pf_options['hyd_flag'] is the documented exception of 'unchanged'"],
     "bound": {"quick": "purity on 8 structures x modes; 9 histories of length 2-3 on 3 structures, with and without havoc",
-              "thorough": "histories of length <=3 over modes x {numba, update-matrix, reuse} x (success|forced failure) on 6 structures"},
+              "thorough": "all ordered pairs (10 earlier call kinds x 3 last call kinds) + 16 triples + the 9 named histories, with and without havoc, on 5 structures"},
     "outside": ["histories longer than 3 calls", "float bit patterns"],
     "rule": "purity: one obligation per input cell (evaluated identity / term equality); history: system entries + result cells",
 }
@@ -152,6 +152,24 @@ def histories(tier):
     H_.append(("colebrook_then_nikuradse", [dict(base, friction_model="swamee-jain")], dict(base)))
     H_.append(("bidirectional_then_hyd", [dict(mode="bidirectional")], dict(base)))
     H_.append(("alpha_then_default", [dict(base, alpha=0.5, tol_p=1e-2, ambient_temperature=300.0)], dict(base)))
+    if tier == "thorough":
+        # every ordered pair (earlier call kind, last call kind) and a deterministic sample of triples
+        kinds = {"hyd": dict(base), "seq": dict(mode="sequential"), "bid": dict(mode="bidirectional"),
+                 "reuse": dict(base, only_update_hydraulic_matrix=True, reuse_internal_data=True),
+                 "hydF": dict(base, _fail=True), "seqF": dict(mode="sequential", _fail=True), "bidF": dict(mode="bidirectional", _fail=True),
+                 "sj": dict(base, friction_model="swamee-jain"), "opts": dict(base, alpha=0.5, tol_p=1e-2, ambient_temperature=300.0),
+                 "seq_reuse": dict(mode="sequential", only_update_hydraulic_matrix=True, reuse_internal_data=True)}
+        lasts = {"hyd": dict(base), "seq": dict(mode="sequential"), "bid": dict(mode="bidirectional")}
+        for kn, kw in kinds.items():
+            for ln, lw in lasts.items():
+                H_.append(("p_%s_%s" % (kn, ln), [dict(kw)], dict(lw)))
+        import random
+        rng = random.Random(1212)
+        names = sorted(kinds)
+        for i in range(16):
+            a, b = rng.choice(names), rng.choice(names)
+            ln = rng.choice(sorted(lasts))
+            H_.append(("t_%s_%s_%s" % (a, b, ln), [dict(kinds[a]), dict(kinds[b])], dict(lasts[ln])))
     return H_
 
 
@@ -290,10 +308,12 @@ def jobs(tier, seed):
                         "pfmode": m, "numba": numba})
     hs = histories(tier)
     structs = [catalog.w_circ_mass(), catalog.w_line3(), catalog.g_line3()]
+    if tier == "thorough":
+        structs += [catalog.w_circ_loop(), catalog.w_heat_line()]
     for si, s in enumerate(structs):
         for hi, (hn, pre, last) in enumerate(hs):
             thermal = any(k.get("mode") in ("sequential", "bidirectional") for k in pre + [last])
-            if thermal and not s["name"].startswith("w_circ"):
+            if thermal and not s["name"].startswith(("w_circ", "w_heat")):
                 continue
             if tier == "quick" and si > 0 and hi % 2 == (si % 2):
                 continue
